@@ -110,6 +110,9 @@ func (r *runner) expectedTagsD(path string, memo map[string]map[string]string, d
 		for _, p := range r.ref.Emit[e.From+"."+e.FromPort] {
 			if p == path {
 				m[to.TagKey] = filepath.Base(path)
+				if to.EmptyTag != "" {
+					m[to.EmptyTag] = ""
+				}
 			}
 		}
 	}
@@ -183,7 +186,7 @@ func (r *runner) compareRecordS(path string, rec *auditRec, where string, o *Obs
 	// record on disk is caught by the differential comparison below)
 	want := r.expectedTagsD(path, memo, !sibling)
 	for k, v := range want {
-		if rec.Tags[k] != v {
+		if got, ok := rec.Tags[k]; !ok || got != v {
 			add("audit-tags", fmt.Sprintf("%s: tag %s=%s attached upstream is missing (Tags %v)", where, k, v, rec.Tags))
 		}
 	}
